@@ -487,10 +487,18 @@ seq_t dtw_warping_paths{{ suffix }}{{ suffix2 }}(seq_t *wps,
         rvalue = -1;
     }
 
+    {%- if "affinity" in suffix %}
     if (settings->max_dist > 0 && rvalue > settings->max_dist) {
         // DTWPruned keeps the last value larger than max_dist. Correct for this.
         rvalue = {{infinity}};
     }
+    {%- else %}
+    if (rvalue > p.max_dist) {
+        // DTWPruned keeps the last value larger than max_dist. Correct for this.
+        // (both values are in the internal representation at this point)
+        rvalue = {{infinity}};
+    }
+    {%- endif %}
 
 
     {%- if "euclidean" == inner_dist %}
